@@ -8,6 +8,8 @@ import UscxmlVerif.Proofs.EntryDoc
 import UscxmlVerif.Proofs.DownOk
 import UscxmlVerif.Proofs.DownRunFast
 import UscxmlVerif.Proofs.RootActive
+import UscxmlVerif.Proofs.LegalThm
+import UscxmlVerif.Proofs.XorFast
 /-!
 # C02 — the active configuration is legal after every micro-step (the part that needs no assumption)
 
@@ -113,6 +115,42 @@ theorem root_is_active_partial (c : Chart) (hcoh : Proofs.Struct.Coherent c = tr
     (run eng c ops).a.e.pristine = true ∨ 0 ∈ (run eng c ops).a.e.config :=
   Proofs.RootActive.run_rootInv c (Proofs.Struct.coh_of_coherent hcoh) (Proofs.EntryClosed.eok_of_entryOk hk)
     (Proofs.DownOk.dok_of_downOk hd) eng ops
+
+/-- **C02 for the two interpreter engines on charts without `<history>` and `<initial>` elements** (all six clauses): for every coherent
+chart numbered in pre-order that meets the decidable chart conditions (`EntryOk`, `DownOk`, `XorOk`, `SelPlain`, `SelPlainF`: evaluated on
+every generated chart), after EVERY sequence of API operations on EITHER engine - once the first step has been taken - the active
+configuration is legal in the sense of `Spec.Legal.legal`: it holds the root, is duplicate-free, consists of proper states of the chart,
+has every state's parent, exactly one child of every active compound state, all children of every active parallel state, and an atomic
+state. (`_partial`: the statement of C02 also covers the generated machines, `<initial>` elements and histories; for histories it is
+false of the code, finding `hist-shared`.) -/
+theorem configuration_is_legal_partial (c : Chart) (hcoh : Proofs.Struct.Coherent c = true) (hi : Proofs.Interval.IntervalOK c = true)
+    (hk : Proofs.EntryClosed.EntryOk c = true) (hd : Proofs.DownOk.DownOk c = true) (hx : Proofs.XorOk.XorOk c = true)
+    (hp : Proofs.Parents.SelPlain c = true) (hpf : Proofs.ParentsFast.SelPlainF c = true) (eng : Engine) (ops : List Op)
+    (hstarted : (run eng c ops).a.e.pristine = false) :
+    Spec.Legal.legal c (run eng c ops).a.e.config = true := by
+  have hc := Proofs.Struct.coh_of_coherent hcoh
+  have hk' := Proofs.EntryClosed.eok_of_entryOk hk
+  have hd' := Proofs.DownOk.dok_of_downOk hd
+  obtain ⟨hx', hl⟩ := Proofs.XorOk.xok_of_xorOk hx
+  obtain ⟨hdc, hxor⟩ := Proofs.XorFast.run_legalInv c hcoh hi hk' hd' hx' hp hpf eng ops
+  have hroot : 0 ∈ (run eng c ops).a.e.config := by
+    rcases Proofs.RootActive.run_rootInv c hc hk' hd' eng ops with h | h
+    · rw [hstarted] at h; cases h
+    · exact h
+  exact Proofs.LegalThm.legal_of_invariants c hc hk' hd' hl _ hroot hdc.1.2.2.1 (Proofs.Parents.configOk_of_pc hk' hdc.1) hdc.1.1 hdc.2 hxor
+
+/-- one step of either engine keeps the whole invariant, from any state that has it -/
+theorem step_keeps_legal (c : Chart) (hcoh : Proofs.Struct.Coherent c = true) (hi : Proofs.Interval.IntervalOK c = true)
+    (hk : Proofs.EntryClosed.EntryOk c = true) (hd : Proofs.DownOk.DownOk c = true) (hx : Proofs.XorOk.XorOk c = true)
+    (hp : Proofs.Parents.SelPlain c = true) (hpf : Proofs.ParentsFast.SelPlainF c = true) (e : EState) :
+    (Proofs.XorRun.XInv c e → Proofs.XorRun.XInv c (Large.step c e).1) ∧
+    (Proofs.XorFast.XInvF c e → Proofs.XorFast.XInvF c (Fast.step c e).1) :=
+  ⟨Proofs.XorRun.large_step_xinv c hcoh hi (Proofs.EntryClosed.eok_of_entryOk hk) (Proofs.DownOk.dok_of_downOk hd)
+     (Proofs.XorOk.xok_of_xorOk hx).1 hp e,
+   Proofs.XorFast.fast_step_xinv c hcoh hi (Proofs.EntryClosed.eok_of_entryOk hk) (Proofs.DownOk.dok_of_downOk hd)
+     (Proofs.XorOk.xok_of_xorOk hx).1 hpf e⟩
+
+example : Proofs.XorOk.XorOk Properties.C05.sample = true := by decide
 
 example : Proofs.DownOk.DownOk Properties.C05.sample = true := by decide
 
